@@ -331,12 +331,14 @@ fn label_count(instructions: &[SymbolicByteCode]) -> usize {
 }
 
 fn apply_stack_effects(fun_builder: &mut FunBuilder, instructions: &mut [SymbolicByteCode]) {
+  // parameters live above slot 0 but no instruction pushes them
+  let params = fun_builder.parameter_slots() as i32;
   let mut slots: i32 = 1;
 
   for instruction in instructions {
     if let SymbolicByteCode::PushHandler((_, label)) = instruction {
       // TODO handle to many slots
-      *instruction = SymbolicByteCode::PushHandler((slots as u16, *label))
+      *instruction = SymbolicByteCode::PushHandler(((slots + params) as u16, *label))
     }
 
     slots += instruction.stack_effect();
